@@ -94,12 +94,16 @@ func c07runHistory(rep *vh.Report, keyRaw []byte, key *frame.V2Key, hist []uint6
 		stream = append(stream, w...)
 	}
 	guard(rep, "what=panic", func() interface{} { return hist }, func() {
-		rd := &frame.Reader{ByteReader: bytes.NewReader(stream), InKey: key}
+		var drw *dialect.ReadWriter
 		if len(hist)%2 == 0 {
 			// a dialect is configured too; the frames carry ids outside it (they come back raw): the window works the same
-			rd.DialectRW = c07dialect
+			drw = c07dialect
 		}
-		_ = rd.Initialize()
+		rd, ierr := newFrameSource(bytes.NewReader(stream), drw, key)
+		if ierr != nil {
+			rep.Violation("what=reader init", "a keyed reader with a valid configuration could not be built: "+ierr.Error(), nil)
+			return
+		}
 		var m c07model
 		for i, ent := range hist {
 			ts := ent &^ c07forged
